@@ -14,9 +14,11 @@ theorem RData.writeG_false (rd : RData) (off : Nat) (t : Table) :
   cases rd with
   | flat code vs =>
     simp only [RData.writeG, RData.write]
-    split
-    · rfl
-    · split
+    cases schemaOf code with
+    | none => rfl
+    | some ks =>
+      simp only
+      split
       · rw [encAllG_false]; rfl
       · rfl
   | _ => rfl
@@ -103,9 +105,9 @@ theorem Header.optRR_WF (h : Header) (o : OptData) (ho : (RData.opt o).WF) :
     ({ name := [], cls := .IN, ttl := encodeTtl o h, rdata := .opt o, flush := false } : RR).WF := by
   have hv : o.version < 256 := ho.1.2.1
   obtain ⟨h1, h2, _⟩ := rcode_with_opt h.rcode o.version hv
-  refine ⟨by decide, ?_, ho, ?_⟩
+  refine ⟨by show Name.WF []; decide, ?_, ho, ?_⟩
   · rw [encodeTtl_eq]; exact h1
-  · simp only
+  · show CLASS.IN = CLASS.IN ∧ false = false ∧ o.version = (encodeTtl o h >>> 8) % 256
     rw [encodeTtl_eq]
     exact ⟨rfl, rfl, h2⟩
 
@@ -123,7 +125,7 @@ theorem Packet.buildG_parse (c : Bool) (p : Packet) (hwf : p.WF) :
   obtain ⟨an, t1, hwan, hsan⟩ := writeRRsG_spec c p.answers (12 + qs.1.length) qs.2 hans
   have hAN := hsan (p.writeHeader ++ qs.1) (by simp [hhl]) hQ.inv
   obtain ⟨ns, t2, hwns, hsns⟩ := writeRRsG_spec c p.nameServers (12 + qs.1.length + an.length) t1 hnss
-  have hNS := hsns (p.writeHeader ++ qs.1 ++ an) (by simp [hhl]) hAN.inv
+  have hNS := hsns (p.writeHeader ++ qs.1 ++ an) (by simp [hhl]; omega) hAN.inv
   have hoptwf : ∀ r ∈ p.header.optRR.toList, r.WF := by
     intro r hr
     cases ho : p.header.opt with
@@ -142,10 +144,10 @@ theorem Packet.buildG_parse (c : Bool) (p : Packet) (hwf : p.WF) :
     | err => rw [hw] at hwo; cases hwo
     | panic => rw [hw] at hwo; cases hwo
   obtain ⟨hwo1, rfl⟩ := hwo'
-  have hO := hso (p.writeHeader ++ qs.1 ++ an ++ ns) (by simp [hhl]) hNS.inv
+  have hO := hso (p.writeHeader ++ qs.1 ++ an ++ ns) (by simp [hhl]; omega) hNS.inv
   obtain ⟨ar, t3, hwar, hsar⟩ := writeRRsG_spec c p.additional
     (12 + qs.1.length + an.length + ns.length + ob.length) t2' hars
-  have hAR := hsar (p.writeHeader ++ qs.1 ++ an ++ ns ++ ob) (by simp [hhl]) hO.inv
+  have hAR := hsar (p.writeHeader ++ qs.1 ++ an ++ ns ++ ob) (by simp [hhl]; omega) hO.inv
   -- the builder
   have hbuild : p.buildG c = .ok (p.writeHeader ++ (qs.1 ++ (an ++ (ns ++ (ob ++ ar))))) := by
     unfold Packet.buildG
@@ -156,20 +158,23 @@ theorem Packet.buildG_parse (c : Bool) (p : Packet) (hwf : p.WF) :
         = p.header.optRR.toList.length + p.additional.length := by
       have : p.additional.length % 65536 = p.additional.length := Nat.mod_eq_of_lt (by omega)
       rw [this]
-      cases p.header.opt <;> simp [Header.optRR]; omega
+      cases ho : p.header.opt with
+      | none => simp [Header.optRR, ho]
+      | some o => simp [Header.optRR, ho]; omega
     obtain ⟨hhp, hgf⟩ := header_parse_built p.header p.questions.length p.answers.length
       p.nameServers.length (p.additional.length % 65536 + (if p.header.opt.isSome then 1 else 0))
       (qs.1 ++ (an ++ (ns ++ (ob ++ ar)))) hid hfl
     obtain ⟨hp1, hp2, hp3, hp4⟩ := peek_built p.header p.questions.length p.answers.length
       p.nameServers.length (p.additional.length % 65536 + (if p.header.opt.isSome then 1 else 0))
       (qs.1 ++ (an ++ (ns ++ (ob ++ ar)))) hid hgf (by omega) (by omega) (by omega)
-      (by rw [hcnt]; cases p.header.opt <;> simp [Header.optRR] at har ⊢ <;> omega)
+      (by have : p.additional.length % 65536 ≤ p.additional.length := Nat.mod_le _ _
+          omega)
     have e1 := hQ.dec (an ++ (ns ++ (ob ++ ar)))
     have e2 := hAN.dec (ns ++ (ob ++ ar))
     have e3 := hNS.dec (ob ++ ar)
     have e4 := hO.dec ar
     have e5 := hAR.dec []
-    simp only [List.append_assoc, List.length_append, List.append_nil, hhl] at e1 e2 e3 e4 e5
+    simp only [List.append_assoc, List.length_append, List.append_nil, hhl, Nat.add_assoc] at e1 e2 e3 e4 e5
     have e45 := parseRRs_append _ _ _ _ _ _ _ _ e4 e5
     rw [← hcnt] at e45
     unfold Packet.parse
